@@ -210,8 +210,16 @@ def gen_case(rng, it):
         nrow_ = len(cols[0]["values"])
         cols = [{"name": c["name"], "kind": "text",
                  "values": [rand_text(rng) for _ in range(nrow_)]} for c in cols]
+        # (not in a one-row frame: a column holding nothing but a name made of digits is
+        # a column of numbers to any CSV reader)
+        # ... nor a name that spells a missing-value marker of the reader ('NA', 'nan':
+        # excluded from the text values everywhere, see rand_text)
         for c in cols:
-            c["values"][nrow_ // 2] = c["name"].strip() or "x"
+            nm_ = c["name"].strip()
+            if nm_ in NA_LIKE or nm_.lower() in ("true", "false"):
+                continue
+            if nrow_ >= 2 or not nm_.lstrip("-").replace(".", "", 1).isdigit():
+                c["values"][nrow_ // 2] = nm_ or "x"
     fmt = ["%0.5f", "%0.5f", "%0.2f", "%0.10e", None][int(rng.integers(0, 5))]
     return {"kind": "csv", "cols": cols, "comments": comments, "mode": mode,
             "float_format": fmt, "sysinfo": bool(it % 2),
